@@ -3,6 +3,7 @@ package kvql
 import (
 	"bytes"
 	"fmt"
+	"sort"
 	"strings"
 )
 
@@ -376,8 +377,32 @@ func (o *FilterOptimizer) optimizeEqualExpr(e *BinaryOpExpr) *ScanType {
 }
 
 func (o *FilterOptimizer) optimizeAndExpr(e *BinaryOpExpr) *ScanType {
-	lstype := o.optimizeExpr(e.Left)
-	rstype := o.optimizeExpr(e.Right)
+	// Collect the scan types of all operands of a chain of and operators
+	// and intersect the same kinds first (lower priority first), so that
+	// disjoint keys, prefixes or ranges are found wherever they are in
+	// the chain
+	var stypes []*ScanType
+	var collect func(expr Expression)
+	collect = func(expr Expression) {
+		if be, ok := expr.(*BinaryOpExpr); ok && (be.Op == And || be.Op == KWAnd) {
+			collect(be.Left)
+			collect(be.Right)
+			return
+		}
+		stypes = append(stypes, o.optimizeExpr(expr))
+	}
+	collect(e)
+	sort.SliceStable(stypes, func(i, j int) bool {
+		return stypes[i].scanTp < stypes[j].scanTp
+	})
+	ret := stypes[0]
+	for _, stype := range stypes[1:] {
+		ret = o.intersection(ret, stype)
+	}
+	return ret
+}
+
+func (o *FilterOptimizer) intersection(lstype, rstype *ScanType) *ScanType {
 	if lstype.scanTp == rstype.scanTp {
 		switch lstype.scanTp {
 		case MGET:
